@@ -521,6 +521,7 @@ def execute(case):
                     if case.get('ctx_extend'):
                         load_ctx = persistence.LoadSaveContext(loader=custom).copyextend(loop=load_loop)
                 before_loads = loaders_h.TagLoader.owned_loads
+                before_any_loads = loaders_h.TagLoader.loads
                 if case.get('strict') and case['loader'] == 'default' and not case.get('tamper'):
                     # a loader with an allow-list that does not contain the class of the object: refused, not resolved
                     # through some other loader
@@ -555,6 +556,11 @@ def execute(case):
                         if fut.get_loop() is not want_loop:
                             v('future-on-wrong-loop', f'{where}: the restored future ({fut_state(fut)[0]}) lives on the loop that was current while loading, not on the loop given in the load context')
                             break
+                    has_nested = any(spec[0] == 'savable' for spec in case['instance']['members'].values())
+                    if case.get('recreate') and case['loader'] in ('persave', 'persave+global') and has_nested and loaders_h.TagLoader.loads <= before_any_loads:
+                        # recreated directly from its class: the loader in charge (recorded in the state, or given in the
+                        # context) is the one that is asked for the classes of the nested objects
+                        v('recorded-loader-not-consulted', 'nested objects were resolved without asking the loader that the saved state records')
                     if case['loader'] != 'default' and not case.get('recreate') and loaders_h.TagLoader.owned_loads <= before_loads:
                         v('custom-loader-not-used', 'the class was not resolved through the custom loader')
                     if not viol:
